@@ -20,7 +20,9 @@ Event(j) ==
     hasref |-> "conv" \in DOMAIN j,
     conv |-> IF "conv" \in DOMAIN j THEN Dec("fx", j.conv) ELSE Z0,
     ref |-> IF "ref" \in DOMAIN j THEN Dec("fx", j.ref) ELSE Z0,
-    alts |-> IF "alts" \in DOMAIN j THEN [i \in DOMAIN j.alts |-> Dec("fx", j.alts[i])] ELSE <<>>]
+    alts |-> IF "alts" \in DOMAIN j THEN [i \in DOMAIN j.alts |-> Dec("fx", j.alts[i])] ELSE <<>>,
+    text |-> IF "text" \in DOMAIN j THEN j.text ELSE <<>>,
+    ab |-> 0]          \* 1: the build that produced the event runs the abacus sqrt (set by the trace specification from the cfg line)
 
 (* C07 on one event: the call returned normally and no sanitizer report is attributed to it *)
 InDomain_C07(e) ==
